@@ -90,6 +90,54 @@ CLAIMS = {
              'range by construction are listed in NOT_ALIASABLE with the '
              'reason.  Reviewed exceptions: ProximalHuber masked writes, '
              'ProductSpaceOperator.'),
+    'C04': dict(
+        cat='proof', ref='DESIGN.md section 2, C04',
+        tech='symbolic interpretation of the arithmetic dunders and of the '
+             'expression classes own _call in the free vector-space algebra '
+             '(value numbering, normal-form equality)',
+        text='Every branch of Operator.__add__..__pow__, of '
+             'OperatorRightScalarMult.__mul__, of Functional.__mul__/'
+             '__rmul__/__add__/__sub__ and the scalar-merging constructors '
+             'is evaluated for every operand sort x linearity x field; the '
+             'returned object is applied to a symbolic x by interpreting '
+             'its own _call (both arms) and must equal the documented table '
+             'row as a normal form; linearity flag and domain are checked.  '
+             'Correct nodes compose to correct trees by structural '
+             'induction, which depth-bounded sampling cannot give.',
+        note='Trusted: ' + TB + '. Leaf operators are uninterpreted symbols,'
+             ' linear iff declared; element dunders defer to operator '
+             'dunders via __array_priority__.'),
+    'C05': dict(
+        cat='other', ref='DESIGN.md section 2, C05',
+        tech='symbolic interpretation of .adjoint and comparison with the '
+             'formal adjoint obtained by moving the class denotation through'
+             ' the inner product (normal-form equality); space tags; '
+             'involution',
+        text='Structural part of the property: for the operator-arithmetic '
+             'classes, a nested expression and the hand-written scalar/'
+             'multiplication/zero operators, over real and complex fields, '
+             'the returned adjoint equals the formal adjoint of the class '
+             'denotation for all operands, maps range to domain, and its own'
+             ' adjoint acts like the operator.  Finite-difference adjoints '
+             'are decided exactly by C13.  Adjoints depending on numerical '
+             'kernels and weight bookkeeping (R6/R7) are not claimed unless '
+             'listed in the evidence.',
+        note='Trusted: ' + TB + '. Only the listed classes; see evidence '
+             'per_rule and clauses_not_decided.'),
+    'C06': dict(
+        cat='other', ref='DESIGN.md section 2, C06',
+        tech='symbolic interpretation of derivative(x) compared with '
+             'symbolic differentiation of the class denotation; elementary-'
+             'function derivative table by rational normal forms',
+        text='Structural part: sum, chain (at the correct inner point), '
+             'scalar/vector multiple and product rules of all operator-'
+             'arithmetic classes (with and without user temporaries, linear '
+             'and non-linear leaves, real and complex), default operators, '
+             'PowerOperator closed form and the ufunc derivative table are '
+             'decided for all operands as normal-form equalities; '
+             'derivative(x) is linear and maps domain to range.',
+        note='Trusted: ' + TB + '. Numerical convergence of difference '
+             'quotients and array-masking derivatives are not decided.'),
 }
 
 NOT_YET = 'check not implemented yet in this commit (DESIGN.md section 6 build order)'
